@@ -53,7 +53,9 @@ override = ExitOverrider()
 
 def maybe(fn):
     def maybe_():
-        if (override.exitcode is None or override.exitcode == 0) and override.exception is None:
+        # sys.exit(0.0) compares equal to 0 but Python ends such a run with status 1: only None and the integer 0 are success
+        success = override.exitcode is None or (isinstance(override.exitcode, int) and override.exitcode == 0)
+        if success and override.exception is None:
             fn()
         else:
             print("*** Script returned with error, skipping proof generation", file=sys.stderr)
